@@ -735,6 +735,51 @@ def op_table():
         if shape(again) != shape(uni):
             raise PropertyViolation("C20: the same seed gave a different graph")
 
+    @reg("pyvis_net", 2, "pyvis")
+    def _(P, u, rf):
+        """C15: make_pyvis_net against the statement, read back from the real pyvis network (this is also what validates the
+        assumed contract of pyvis.network.Network used by the proof)"""
+        uni = P.U[u % len(P.U)]
+        names = {id(v): "n%d" % k for k, v in enumerate(P.V + P.U)}
+        rv = [None, lambda v: names.get(id(v), "?")][rf % 2]
+        V = uni.vertices
+        DE = P.eg["DirectedEdge"]
+        for v in V:
+            for l in getattr(v, "links", ()):
+                if len(l.vertices) != 2 or any(e is None for e in l.vertices):
+                    return                      # outside the domain of the statement (two-ended links between vertices)
+        net = P.mods["pyvis"].make_pyvis_net(uni, rvfunc=rv)
+        nodes = net.nodes
+        if [nd["id"] for nd in nodes] != list(range(len(V))):
+            raise PropertyViolation(f"C15: node ids {[nd['id'] for nd in nodes]} for {len(V)} members")
+        if rv is not None and [nd["label"] for nd in nodes] != [rv(v) for v in V]:
+            raise PropertyViolation("C15: node labels are not rvfunc of the members in universe order")
+        pos = {id(v): k for k, v in enumerate(V)}
+        internal = []
+        for v in V:
+            for l in v.links:
+                if l.v1 is v and id(l.v2) in pos and not any(l is m for m in internal):
+                    internal.append(l)
+        edges = net.edges
+        for e in edges:
+            a, b = e["from"], e["to"]
+            if not (0 <= a < len(V) and 0 <= b < len(V)):
+                raise PropertyViolation("C15: an edge names a node that does not exist")
+            arrowed = e.get("arrows") == "to"
+            if arrowed:
+                want = sum(1 for l in internal if isinstance(l, DE) and l.v1 is V[a] and l.v2 is V[b])
+                have = sum(1 for f in edges if f.get("arrows") == "to" and f["from"] == a and f["to"] == b)
+                if want != have:
+                    raise PropertyViolation(f"C15: {have} arrowed edges {a}->{b} for {want} directed links from that vertex to that vertex")
+            elif not any((not isinstance(l, DE)) and ((l.v1 is V[a] and l.v2 is V[b]) or (l.v1 is V[b] and l.v2 is V[a])) for l in internal):
+                raise PropertyViolation(f"C15: an arrow-less edge {a}--{b} without a non-directed link between the two vertices")
+        for l in internal:
+            a, b = pos[id(l.v1)], pos[id(l.v2)]
+            if not any((e["from"], e["to"]) in ((a, b), (b, a)) for e in edges):
+                raise PropertyViolation(f"C15: a link between members {a} and {b} is not drawn")
+            if isinstance(l, DE) and not any(e["from"] == a and e["to"] == b and e.get("arrows") == "to" for e in edges):
+                raise PropertyViolation(f"C15: the directed link {a}->{b} has no arrowed edge")
+
     @reg("mutate_last_result", 1, "query")
     def _(P, k):
         # a caller may do anything with a container it was handed (C12)
@@ -945,7 +990,7 @@ GROUPS = {
     "C16": ("assoc", "explicit", "member", "text"), "C17": ("singleton",), "C18": ("singleton",),
     "C06": ("assoc", "explicit", "member", "traverse"), "C07": ("assoc", "explicit", "member", "traverse"),
     "C08": ("assoc", "explicit", "member", "traverse"),
-    "C11": ("assoc", "explicit", "member", "adj"), "C20": ("rand",),
+    "C11": ("assoc", "explicit", "member", "adj"), "C20": ("rand",), "C15": ("assoc", "explicit", "member", "pyvis"),
 }
 
 
